@@ -137,6 +137,8 @@ def evalExpr {V} (S : Sem V) (ρ : Store V) : Expr → Option (PV V)
         | _ => none
       else single (applyOp S "" oname binSig [x, y] [])
     | _, _, _ => none
+  -- the meaning of indexing is C11's; C01 models the emitted structure only (C02), so no refinement claim
+  | .subscript _ _ => none
   | .other _ => none
 def evalExprs {V} (S : Sem V) (ρ : Store V) : List Expr → Option (List (PV V))
   | [] => some []
@@ -377,24 +379,52 @@ def ifLine : List Stmt → Bool
     | .ret _ bare, [] => !bare
     | _, _ => ifStmt s && ifLine ss
 
+/-- `pre; if t: break` ↦ `(pre, t)`. -/
+def splitBrk (body : List Stmt) : Option (List Stmt × Name) :=
+  match body.getLast? with
+  | some (.brk (.var t)) => some (body.dropLast, t)
+  | _ => none
+
+/-- Loop bodies of the `for` fragment: statements of the `if` fragment, optionally followed by one
+`if t: break` (the only place the converter accepts a `break`). -/
+def loopBodyOK (body : List Stmt) : Bool :=
+  ifBlock body ||
+    (match splitBrk body with
+     | some (pre, _) => ifBlock pre
+     | none => false)
+
 /-- Side conditions on a top-level `for i in range(b): body` covered by the loop refinement theorem: the
-bound is tensor-valued, the body is in the `if` fragment (so no `break`, no nested loop), the loop variable
-is neither assigned in the body nor read after the loop (C01-D31: the converter leaves it bound to the
-body-local name), and liveness analysis reached its fixpoint. -/
+bound is tensor-valued, the body is in the `if` fragment up to a trailing `if t: break` (so no nested loop),
+the loop variable is not assigned in the body, and liveness analysis reached its fixpoint.  (That the loop
+variable is not read after the loop need not be assumed: since 9b326d7 the converter refuses such loops.) -/
 def forOK (i : Name) (b : Expr) (body : List Stmt) (lo : VSet) : Bool :=
-  tensorRhs b && ifBlock body && !(lo.contains i) &&
+  tensorRhs b && loopBodyOK body &&
   (match assignedBlock body with
    | some d => !(d.contains i)
    | none => false) &&
   stableStmt (.for_ i true b body) lo
 
-/-- Top-level statements of the `for` fragment. -/
+/-- Side conditions on a top-level `while t: body` covered by the loop refinement theorem: the body is in the
+`if` fragment up to a trailing `if b: break`, liveness analysis reached its fixpoint, and the condition variable
+is loop-carried or (re)computed in the body before anything reads it (when it is only *conditionally* assigned
+and not read elsewhere, an iteration that skips the assignment re-exports the value from before the loop — same
+truth value, but not the same tensor of the abstract semantics). -/
+def whileOK (t : Name) (body : List Stmt) (lo : VSet) : Bool :=
+  loopBodyOK body &&
+  (match assignedBlock body, loopState body lo with
+   | some _, some state =>
+     state.contains t || !(liveInBlock body (loopBodyLo (.while_ (.var t) body) lo)).contains t
+   | _, _ => false) &&
+  stableStmt (.while_ (.var t) body) lo
+
+/-- Top-level statements of the loop fragment: `if`-fragment statements, `for i in range(b)` and `while t` loops. -/
 def forTopStmt : Stmt → VSet → Bool
   | .for_ i ok b body, lo => ok && forOK i b body lo
+  | .while_ (.var t) body, lo => whileOK t body lo
   | s, _ => ifStmt s
 
-/-- Function bodies of the `for` fragment: `if`-fragment statements and `for i in range(b)` loops over
-`if`-fragment bodies, followed by one `return e1, …, en`. -/
+/-- Function bodies of the loop fragment: `if`-fragment statements and `for i in range(b)` / `while t` loops over
+`if`-fragment bodies (optionally ending in `if b: break`), followed by one `return e1, …, en`. -/
 def forLine : List Stmt → Bool
   | [] => false
   | s :: ss =>
